@@ -160,7 +160,7 @@ func (txn *Txn) With(columns ...string) *Txn {
 				dst.And(src)
 			})
 		} else {
-			txn.index.Clear()
+			txn.none()
 		}
 	}
 	return txn
@@ -251,7 +251,7 @@ func (txn *Txn) WithValue(column string, predicate func(v interface{}) bool) *Tx
 	txn.initialize()
 	c, ok := txn.columnAt(column)
 	if !ok {
-		txn.index.Clear()
+		txn.none()
 		return txn
 	}
 
@@ -273,7 +273,7 @@ func (txn *Txn) WithFloat(column string, predicate func(v float64) bool) *Txn {
 	txn.initialize()
 	c, ok := txn.columnAt(column)
 	if !ok || !c.IsNumeric() {
-		txn.index.Clear()
+		txn.none()
 		return txn
 	}
 
@@ -289,7 +289,7 @@ func (txn *Txn) WithInt(column string, predicate func(v int64) bool) *Txn {
 	txn.initialize()
 	c, ok := txn.columnAt(column)
 	if !ok || !c.IsNumeric() {
-		txn.index.Clear()
+		txn.none()
 		return txn
 	}
 
@@ -305,7 +305,7 @@ func (txn *Txn) WithUint(column string, predicate func(v uint64) bool) *Txn {
 	txn.initialize()
 	c, ok := txn.columnAt(column)
 	if !ok || !c.IsNumeric() {
-		txn.index.Clear()
+		txn.none()
 		return txn
 	}
 
@@ -321,7 +321,7 @@ func (txn *Txn) WithString(column string, predicate func(v string) bool) *Txn {
 	txn.initialize()
 	c, ok := txn.columnAt(column)
 	if !ok || !c.IsTextual() {
-		txn.index.Clear()
+		txn.none()
 		return txn
 	}
 
@@ -329,6 +329,13 @@ func (txn *Txn) WithString(column string, predicate func(v string) bool) *Txn {
 		c.Column.(Textual).FilterString(chunk, index, predicate)
 	})
 	return txn
+}
+
+// none empties the selection but keeps its size, so that a subsequent union can add rows
+func (txn *Txn) none() {
+	for i := range txn.index {
+		txn.index[i] = 0
+	}
 }
 
 // Count returns the number of objects matching the query
